@@ -75,6 +75,7 @@ type FuncContract struct {
 	Serves   []string
 	ExitSets []*GhostSet
 	EntrySets []*GhostSet
+	Callees  map[string]string // func-valued variable name -> callback contract
 	Where    string
 	File     *SpecFile
 }
@@ -122,7 +123,7 @@ var clauseKeywords = map[string]bool{
 	"package": true, "import": true, "pure": true, "ghost": true, "axiom": true, "lemma": true,
 	"func": true, "iface": true, "extern": true, "callback": true, "funcfield": true,
 	"requires": true, "ensures": true, "modifies": true, "loop": true, "call": true, "let": true,
-	"trusted": true, "inline": true, "opt": true, "serves": true, "exit": true, "entry": true,
+	"trusted": true, "inline": true, "opt": true, "serves": true, "exit": true, "entry": true, "callee": true,
 }
 
 var labelRe = regexp.MustCompile(`^\[([^\]]*)\]\s*`)
@@ -312,6 +313,16 @@ func (sp *Specs) loadFile(path, pkgPath string) error {
 			case "trusted":
 				cur.Trusted = true
 				sp.Scan = append(sp.Scan, fmt.Sprintf("trusted %s.%s (%s)", pkgPath, cur.Name, where))
+			case "callee":
+				// callee <variable> <callback>: dynamic calls through this func-valued variable use the callback contract
+				parts := strings.Fields(rest)
+				if len(parts) != 2 {
+					return fail(fmt.Errorf("callee <variable> <callback>"))
+				}
+				if cur.Callees == nil {
+					cur.Callees = map[string]string{}
+				}
+				cur.Callees[parts[0]] = parts[1]
 			case "inline":
 				cur.Inline = true
 			case "serves":
